@@ -300,6 +300,68 @@ func H_C17_shape(fs, w int) {
 	vReach("end")
 }
 
+// H_C17_emptyval: completeness for an empty value that is not the last
+// item ("n1=" SEP "n2=v2" + end): the first parameter is reported with its
+// name as written and an empty value, and the list continues. fs as in
+// c17flags.
+func H_C17_emptyval(fs, w int) {
+	flags := c17flags[fs]
+	uriParam := flags&POptTokURIParamF != 0
+	sep := byte(';')
+	if flags&(POptParamAmpSepF|POptTokURIHdrF) != 0 {
+		sep = '&'
+	}
+	term := byte(0)
+	if flags&(POptTokQmTermF|POptTokURIParamF) != 0 {
+		term = '?'
+	} else if flags&POptTokCommaTermF != 0 {
+		term = ','
+	}
+	var b []byte
+	n1 := vBytes(w)
+	for i := range n1 {
+		vAssume(refTokChar(n1[i], uriParam) && n1[i] != sep && n1[i] != term)
+	}
+	b = append(b, n1...)
+	n1e := len(b)
+	b = append(b, '=', sep)
+	if vBool() {
+		b = append(b, ' ')
+	}
+	n2s := len(b)
+	n2 := vBytes(1)
+	vAssume(refTokChar(n2[0], uriParam) && n2[0] != sep && n2[0] != term)
+	b = append(b, n2...)
+	b = append(b, '=')
+	v2 := vBytes(1)
+	vAssume(refTokChar(v2[0], uriParam) && v2[0] != sep && v2[0] != term)
+	b = append(b, v2...)
+	end := len(b)
+	if flags&POptInputEndF == 0 {
+		b = append(b, '\r', '\n', 'X')
+	}
+	var prm PTokParam
+	o, e := ParseTokenParam(b, 0, &prm, flags)
+	vObs("o", o)
+	vObs("e", int(e))
+	vAssert("empty-value-more-values-follow", e == ErrHdrMoreValues)
+	if e != ErrHdrMoreValues {
+		return
+	}
+	vAssert("empty-value-name-as-written", pfIs(prm.Name, 0, n1e))
+	vAssert("empty-value-reported-empty", prm.Val.Len == 0)
+	prm.Reset()
+	o, e = ParseTokenParam(b, o, &prm, flags)
+	vObs("o2", o)
+	vObs("e2", int(e))
+	vAssert("empty-value-list-ends", vOr(e == ErrHdrEOH, e == ErrHdrOk) && o >= end && o <= len(b))
+	if e != ErrHdrEOH && e != ErrHdrOk {
+		return
+	}
+	vAssert("empty-value-next-as-written", vAnd(pfIs(prm.Name, n2s, n2s+1), pfIs(prm.Val, n2s+2, n2s+3)))
+	vReach("end")
+}
+
 // H_C17_hlists: the URI-header list wrapper counts every header (stored or
 // not), returns that count, keeps the stored prefix exact and reports More().
 func H_C17_hlists(t, w, hcap int) {
